@@ -7,3 +7,4 @@ import SmVerif.Model.DriverCmp
 import SmVerif.Model.DriverStore
 import SmVerif.Model.DriverTwin
 import SmVerif.Model.DriverSketch
+import SmVerif.Model.DriverSeq
